@@ -898,6 +898,21 @@ def e2_archetypes_eq(prog):
                 pay = ('f', ('down', found[0]['ret'], 'Some', 1), 0, 'core::option::Option')
                 ceq = [c for c in p.calls(lambda c: c['name'] == 'component_eq') if {S(c['vals'][0]), S(c['vals'][1])} == {e, pay} and p.lookup(c['ret']) is True]
                 if not ceq:
+                    # two tables the path found to hold no rows are equal without looking further
+                    li_ = adt_field_index(prog, 'archetype::Archetype', 'length')
+
+                    def no_rows(t):
+                        for g in p.calls(lambda g: g['name'] == 'is_empty' and g['path'].startswith('archetype::Archetype') and S(g['vals'][0]) == t):
+                            if p.lookup(g['ret']) is True:
+                                return True
+                        for a_, v in p.conds:
+                            if isinstance(a_, tuple) and a_[0] == 'bin' and a_[1] == 'Eq' and v is True and ('c', 0) in a_[2:]:
+                                o = [x for x in a_[2:] if x != ('c', 0)]
+                                if o and pathsem.is_field_of(o[0], 'archetype::Archetype', li_) and S(S(o[0])[1]) in (t, ('d', t)):
+                                    return True
+                        return False
+                    if no_rows(e) and no_rows(pay):
+                        continue
                     once('wrong-combination', 'Archetypes::eq returns true on a path where an archetype\'s rows were not found equal to its counterpart\'s (component_eq)')
     if not n_true:
         once('not-extractable', 'Archetypes::eq never returns true')
